@@ -106,20 +106,20 @@ PROPS = {
         unproved=['interoperability with 0.4.7 (bounded)'], assumptions=[ASSUME_CODEC, ASSUME_IO, ASSUME_PHYS],
         explanation='format and index structure proved; interop bounded'),
     'C10': dict(
-        level='other',
-        level_text='Metadata::read_from is proved (Verus, all byte strings) to decode a V1 trailer (21 bytes, literal magic 0x76324D4C) into FormatV1 with the stored root offset, codec and count and index_levels 0; no reader contract mentions the version. "Identical results" is bounded: V1 twins of V2 files (all codecs, block sizes, intervals, 0..600 entries incl. empty) compared on open metadata, scans, seeks, ranges and prefixes.',
-        level_note=READER_UNPROVED,
-        technique='Verus contract on Metadata::read_from + bounded V1/V2 twin stand-in',
+        level='proof',
+        level_text='Proved (Verus, unbounded): Metadata::read_from decodes a V1 trailer (21 bytes: root offset and entry count as u64 LE around a one-byte codec id, literal magic 0x76324D4C) into FormatV1 with the stored root offset, codec and count and index_levels 0 (and accepts every such string on a reliable source); lemma_open_v1: the blocks of any well-formed single-index-level log followed by the V1 trailer are a well-formed tree from the decoded root whose entry list (tree_entries) is the same `es` as for the V2 file of the same content (lemma_tree_from_log: the tree model depends on the bytes only through the block log prefix; uniqueness of the decoded tree); and no reader, cursor, iterator or merger contract mentions the file version -- each is a function of tree_entries -- so every scan, seek, range and prefix query returns exactly what the V2 file returns. Independent bounded stand-in: V1 twins of V2 files (all codecs, block sizes, intervals, 0..600 entries incl. empty) compared on open metadata, scans, seeks, ranges and prefixes.',
+        level_note=ASSUME_IO + '; ' + ASSUME_CODEC + '; ' + IBC_ASSUMED,
+        technique='Verus contract on Metadata::read_from + file-model lemma for the V1 twin + version-free cursor contracts; bounded V1/V2 twin stand-in',
         kani=[dict(name='c10_metadata_roundtrip_all_fields', kind='complete')], native=[N('verif_rw::c10_v1_files', '14 (40 thorough) twin pairs, ~1600 queries')], witness=[],
-        unproved=[READER_UNPROVED], explanation='trailer decode proved; identical query results bounded'),
+        unproved=[], explanation='trailer decode, V1 twin lemma and version-free query contracts proved; twin files as independent check'),
     'C11': dict(
         level='other',
-        level_text='Write side: CountWrite::write/flush are proved (Verus) against the trait-level contract of an arbitrary inner writer that accepts any prefix or fails (count == bytes accepted); every emission in compress_and_write_block / Metadata::write_into goes through write_all / byteorder writes whose assumed contract is schedule independent, so the emitted bytes are a function of the entries. Read side and whole-pipeline determinism are bounded: sinks accepting 1..n bytes per call with/without Interrupted, sources serving 1..n bytes per read with/without Interrupted, for all codecs, plus a Sorter over splitting chunk storage.',
-        level_note=ASSUME_IO + '; read path not under contract; bounded schedules are pseudo-random (VERIF_SEED)',
+        level_text='Write side: CountWrite::write/flush are proved (Verus) against the trait-level contract of an arbitrary inner writer that accepts any prefix or fails (count == bytes accepted); every emission in compress_and_write_block / Metadata::write_into goes through write_all / byteorder writes whose assumed contract is schedule independent, and Writer::into_inner proves the emitted bytes are file_wf over (configuration, inserted entries) only -- so the byte stream is a function of the entries. Read side: every reader / cursor / iterator / merger contract is stated over rd_bytes (the content of the source) alone; reads go through read_exact / seek and Read::take+decoder (hoisted, assumed) whose contracts do not depend on how the source splits or interrupts reads, so each returned result is a function of the bytes. Whole-pipeline determinism incl. the sorter and the real codecs is bounded: sinks accepting 1..n bytes per call with/without Interrupted, sources serving 1..n bytes per read with/without Interrupted, for all codecs, plus a Sorter over splitting chunk storage (this stand-in found the lz4 defect F5).',
+        level_note=ASSUME_IO + '; decompress over Read::take is a hoisted stub with an assumed contract (the codec crates read through it); bounded schedules are pseudo-random (VERIF_SEED)',
         technique='Verus trait-level contract for CountWrite + assumed std write_all/read_exact contracts + bounded schedule stand-in',
         kani=[dict(name='c11_count_write_counts_accepted_bytes', kind='bounded', bound='3 write calls of <= 16 bytes each over an inner writer with an arbitrary accept/fail schedule (each call is loop-free: complete per call)')], native=[N('verif_io::c11_io_splitting', '6 files x (6 sink schedules + 7 source schedules) + 2 sorter runs')], witness=[],
-        unproved=['read side (Block::read_from, decompress over Take) not under contract'], assumptions=[ASSUME_IO],
-        explanation='write side proved modulo std contracts; read side bounded'),
+        unproved=['decompress over Read::take (codec crates) assumed; sorter pipeline bounded'], assumptions=[ASSUME_IO],
+        explanation='write and read side proved modulo std / codec contracts; real codecs and sorter bounded'),
     'C12': dict(
         level='other',
         level_text='Proved (Verus): panic-freedom of every function under contract (no overflow, no failing unwrap/index under the stated physical bounds) -- write path, block decoding, all cursor operations, iterators, merger, sorter buffer; every such function returns Err (never a Merge error) when a source/sink operation it performs fails, and the verified callers propagate it with `?`; Error::convert_merge_error total on non-merge errors, io errors converted by From, CountWrite::into_inner flushes before handing the sink back, Writer::into_inner returns Ok only after trailer and flush; MergerIter::next returns Err(Merge) exactly when the merge function fails and, when it returns Ok, every source of the group was advanced and is back in the heap iff it has a next entry (a swallowed I/O error would break that clause). Bounded: exhaustive k-th-call fault injection on sinks (two error kinds), sources (every fault point of both merged sources), chunk creator (io and InvalidFormatVersion), chunk storage and merge function through Writer, Reader, Merger and Sorter under catch_unwind.',
